@@ -304,10 +304,10 @@ func VP_C18_sqs_xattr_find() {
 	}
 }
 
-// VP_C18_sqs_read_metadata: readMetadata over an arbitrary table of uncompressed blocks (quick: 24
+// VP_C18_sqs_read_metadata: readMetadata over an arbitrary table of uncompressed blocks (quick: 12
 // bytes from table offset 0; thorough: 64 bytes from an arbitrary table start).
 func VP_C18_sqs_read_metadata() {
-	size := int64(vp.Bound("metatable", 24, 64))
+	size := int64(vp.Bound("metatable", 12, 64))
 	dev := vpdev.NewMemDev("img", size)
 	dev.UF, dev.NoWrites = true, true
 	// no compressor: blocks whose header says "compressed" are refused by readMetaBlock
@@ -323,7 +323,7 @@ func VP_C18_sqs_read_metadata() {
 	off := vp.U16("byteOffset")
 	want := vp.Int("size")
 	vp.Assume(want >= 0)
-	vp.Assume(want <= vp.Bound("metawant", 12, 48))
+	vp.Assume(want <= vp.Bound("metawant", 5, 48))
 	vp.Unwind(int(size)/2 + 4)
 	vp.MaxLoop(int(size)/2 + 2) // every iteration consumes at least the 2-byte header of a block
 	vp.AllocCap(int(size) + 6)
